@@ -54,11 +54,11 @@ type MESpec struct {
 }
 
 type OptsSpec struct {
-	MEs       []MESpec `json:"mes"`
-	Default   int      `json:"default"`
-	BadDef    bool     `json:"bad_default,omitempty"`   // default name without options
-	EmptyME   int      `json:"empty_me,omitempty"`      // 1+index of the ME whose endpoint list is emptied
-	DialFail  int      `json:"dial_fail,omitempty"`     // the n-th dial of this update fails (1-based)
+	MEs      []MESpec `json:"mes"`
+	Default  int      `json:"default"`
+	BadDef   bool     `json:"bad_default,omitempty"` // default name without options
+	EmptyME  int      `json:"empty_me,omitempty"`    // 1+index of the ME whose endpoint list is emptied
+	DialFail int      `json:"dial_fail,omitempty"`   // the n-th dial of this update fails (1-based)
 }
 
 type Op struct {
@@ -77,6 +77,7 @@ type Plan struct {
 	Ops        []Op     `json:"ops"`
 }
 
+//go:norace
 func (p *Plan) Clone() *Plan {
 	b, _ := json.Marshal(p)
 	c := &Plan{}
@@ -84,6 +85,7 @@ func (p *Plan) Clone() *Plan {
 	return c
 }
 
+//go:norace
 func genOpts(r *rand.Rand, faults bool, timed bool) OptsSpec {
 	o := OptsSpec{}
 	n := 1 + r.IntN(3)
@@ -112,6 +114,7 @@ func genOpts(r *rand.Rand, faults bool, timed bool) OptsSpec {
 	return o
 }
 
+//go:norace
 func Generate(r *rand.Rand, profile string, concurrent bool, avoid map[string]bool) *Plan {
 	p := &Plan{Profile: profile, Concurrent: concurrent}
 	bad := profile == "gmebad"
@@ -183,9 +186,10 @@ func (p *fakePool) record(ctx context.Context) {
 	p.s.k.Yield("pool:rpc")
 	p.rpcs++
 	name, _ := grpcgcp.FromMEContext(ctx)
-	p.s.rpcs = append(p.s.rpcs, rpcRec{pool: p, name: name, wasClosed: p.closed > 0, seq: len(p.s.rpcs)})
+	p.s.rpcs = kern.Push(p.s.rpcs, rpcRec{pool: p, name: name, wasClosed: p.closed > 0, seq: len(p.s.rpcs)})
 }
 
+//go:norace
 func (p *fakePool) Invoke(ctx context.Context, method string, args, reply interface{}, opts ...grpc.CallOption) error {
 	p.record(ctx)
 	return nil
@@ -196,13 +200,25 @@ type fakeStream struct {
 	ctx context.Context
 }
 
-func (f *fakeStream) Context() context.Context     { return f.ctx }
-func (f *fakeStream) SendMsg(m interface{}) error  { return nil }
-func (f *fakeStream) RecvMsg(m interface{}) error  { return nil }
-func (f *fakeStream) CloseSend() error             { return nil }
-func (f *fakeStream) Header() (metadata.MD, error) { return nil, nil }
-func (f *fakeStream) Trailer() metadata.MD         { return nil }
+//go:norace
+func (f *fakeStream) Context() context.Context { return f.ctx }
 
+//go:norace
+func (f *fakeStream) SendMsg(m interface{}) error { return nil }
+
+//go:norace
+func (f *fakeStream) RecvMsg(m interface{}) error { return nil }
+
+//go:norace
+func (f *fakeStream) CloseSend() error { return nil }
+
+//go:norace
+func (f *fakeStream) Header() (metadata.MD, error) { return nil, nil }
+
+//go:norace
+func (f *fakeStream) Trailer() metadata.MD { return nil }
+
+//go:norace
 func (p *fakePool) NewStream(ctx context.Context, desc *grpc.StreamDesc, method string, opts ...grpc.CallOption) (grpc.ClientStream, error) {
 	p.record(ctx)
 	return &fakeStream{ctx: ctx}, nil
@@ -249,29 +265,31 @@ func (p *fakePool) setState(st connectivity.State) {
 // ---------------------------------------------------------------- sim
 
 type sim struct {
-	plan  *Plan
-	k     *kern.Kernel
-	res   *simkit.Result
-	gme   *grpcgcp.GCPMultiEndpoint
-	pools []*fakePool // every pool ever dialled
-	rpcs  []rpcRec
+	plan     *Plan
+	k        *kern.Kernel
+	res      *simkit.Result
+	gme      *grpcgcp.GCPMultiEndpoint
+	pools    []*fakePool // every pool ever dialled
+	rpcs     []rpcRec
 	libTasks []*kern.Task
 
-	dialN    int // dials in the current update
-	dialFail int
-	dialLog  []string
+	dialN     int // dials in the current update
+	dialFail  int
+	dialLog   []string
+	nDialFail int
 
 	// model
-	mes      map[string]MESpec // accepted configuration
-	prevME   map[string]MESpec
-	def      string
-	cfg      *pb.ApiConfig
-	cfgSnap  *pb.ApiConfig
-	opIdx    int
-	stop     bool
+	mes       map[string]MESpec // accepted configuration
+	prevME    map[string]MESpec
+	def       string
+	cfg       *pb.ApiConfig
+	cfgSnap   *pb.ApiConfig
+	opIdx     int
+	stop      bool
 	closedAll bool
 }
 
+//go:norace
 func (s *sim) vio(prop, rule, facts, msg string) {
 	sig := prop + "|" + rule
 	if facts != "" {
@@ -282,6 +300,7 @@ func (s *sim) vio(prop, rule, facts, msg string) {
 	s.stop = true
 }
 
+//go:norace
 func (s *sim) openPool(ep string) *fakePool {
 	var last *fakePool
 	for _, p := range s.pools {
@@ -296,16 +315,17 @@ func (s *sim) openPool(ep string) *fakePool {
 func (s *sim) dial(ctx context.Context, target string, dopts ...grpc.DialOption) (vsync.PoolConn, error) {
 	s.k.Yield("dial")
 	s.dialN++
-	s.dialLog = append(s.dialLog, target)
+	s.dialLog = kern.Push(s.dialLog, target)
 	if s.dialFail > 0 && s.dialN == s.dialFail {
-		s.res.Count("fault:dial_failure", 1)
+		s.nDialFail++
 		return nil, errors.New("simulated dial failure for " + target)
 	}
 	p := &fakePool{s: s, endpoint: target, id: len(s.pools), state: connectivity.Idle, ch: make(chan struct{})}
-	s.pools = append(s.pools, p)
+	s.pools = kern.Push(s.pools, p)
 	return p, nil
 }
 
+//go:norace
 func (s *sim) buildOpts(o OptsSpec) *grpcgcp.GCPMultiEndpointOptions {
 	mo := &grpcgcp.GCPMultiEndpointOptions{
 		GRPCgcpConfig:  s.cfg,
@@ -330,9 +350,12 @@ func (s *sim) buildOpts(o OptsSpec) *grpcgcp.GCPMultiEndpointOptions {
 	return mo
 }
 
+//go:norace
 func invalid(o OptsSpec) bool { return o.BadDef || o.EmptyME > 0 }
 
 // call runs fn as a task; returns false if it panicked.
+//
+//go:norace
 func (s *sim) call(name string, group int, fn func()) (po *callRec) {
 	po = &callRec{name: name}
 	po.t = s.k.Spawn(name, group, nil, func() {
@@ -360,6 +383,7 @@ type callRec struct {
 	stack    string
 }
 
+//go:norace
 func Run(t *testing.T, plan *Plan, src *simkit.Source, logOn bool) *simkit.Result {
 	res := &simkit.Result{}
 	h := simkit.Bubble(t, func() {
@@ -373,6 +397,7 @@ func Run(t *testing.T, plan *Plan, src *simkit.Source, logOn bool) *simkit.Resul
 	return res
 }
 
+//go:norace
 func (s *sim) kernelFailure() {
 	f := s.k.Fail
 	if f == nil {
@@ -391,6 +416,7 @@ func (s *sim) kernelFailure() {
 	}
 }
 
+//go:norace
 func (s *sim) panicked(c *callRec, what string) bool {
 	if c.panicked == "" {
 		return false
@@ -400,6 +426,7 @@ func (s *sim) panicked(c *callRec, what string) bool {
 	return true
 }
 
+//go:norace
 func (s *sim) run(src *simkit.Source, logOn bool) {
 	k := kern.New(src)
 	k.LogOn = logOn
@@ -408,7 +435,7 @@ func (s *sim) run(src *simkit.Source, logOn bool) {
 	s.k = k
 	k.OnSpawn = func(parent, child *kern.Task) {
 		if child.Name == "go" {
-			s.libTasks = append(s.libTasks, child)
+			s.libTasks = kern.Push(s.libTasks, child)
 		}
 	}
 	k.Install()
@@ -466,6 +493,7 @@ func (s *sim) run(src *simkit.Source, logOn bool) {
 	s.finish()
 }
 
+//go:norace
 func (s *sim) kindOf(o OptsSpec) string {
 	switch {
 	case o.BadDef:
@@ -478,6 +506,7 @@ func (s *sim) kindOf(o OptsSpec) string {
 	return "valid"
 }
 
+//go:norace
 func (s *sim) accept(o OptsSpec) {
 	s.mes = map[string]MESpec{}
 	for _, me := range o.MEs {
@@ -495,6 +524,7 @@ func (s *sim) accept(o OptsSpec) {
 	s.def = meNames[o.Default%3]
 }
 
+//go:norace
 func (s *sim) settle(o Op) {
 	if s.plan.Concurrent {
 		s.k.RunSteps(o.N)
@@ -504,6 +534,7 @@ func (s *sim) settle(o Op) {
 	s.kernelFailure()
 }
 
+//go:norace
 func (s *sim) endpointsOf(me MESpec) []string {
 	var out []string
 	for _, e := range me.Eps {
@@ -514,6 +545,8 @@ func (s *sim) endpointsOf(me MESpec) []string {
 
 // probe issues one RPC with the given MultiEndpoint name ("" = none) and
 // returns the pool that received it.
+//
+//go:norace
 func (s *sim) probe(name string, stream bool) (*fakePool, bool) {
 	ctx := context.Background()
 	if name != "" {
@@ -554,6 +587,8 @@ func (s *sim) probe(name string, stream bool) (*fakePool, bool) {
 }
 
 // judge checks the routing of one RPC against the accepted configuration.
+//
+//go:norace
 func (s *sim) judge(name string, p *fakePool, when string, exact bool) {
 	sel := name
 	if _, ok := s.mes[sel]; !ok || name == "" {
@@ -587,6 +622,7 @@ func (s *sim) judge(name string, p *fakePool, when string, exact bool) {
 	}
 }
 
+//go:norace
 func (s *sim) routingSnapshot() (map[string]string, bool) {
 	snap := map[string]string{}
 	// every name of the universe, configured or not: a rejected update must not
@@ -605,6 +641,8 @@ func (s *sim) routingSnapshot() (map[string]string, bool) {
 
 // afterUpdate: exactly one open pool per mentioned endpoint, removed pools
 // closed once, kept pools not re-dialled, routing already reflects connectivity.
+//
+//go:norace
 func (s *sim) afterUpdate(when string) {
 	want := map[string]bool{}
 	for _, me := range s.mes {
@@ -655,6 +693,8 @@ func (s *sim) afterUpdate(when string) {
 }
 
 // monitorCheck: one live monitor per open pool, none for closed pools.
+//
+//go:norace
 func (s *sim) monitorCheck(when string) {
 	s.k.Quiesce()
 	live := 0
@@ -674,6 +714,7 @@ func (s *sim) monitorCheck(when string) {
 	}
 }
 
+//go:norace
 func (s *sim) leakCheck(when string) {
 	s.k.Quiesce()
 	for _, p := range s.pools {
@@ -690,6 +731,7 @@ func (s *sim) leakCheck(when string) {
 	}
 }
 
+//go:norace
 func (s *sim) exec(o Op) {
 	switch o.K {
 	case OpUpdate:
@@ -819,6 +861,8 @@ func (s *sim) exec(o Op) {
 
 // configCheck: GCPConfig() returns an equal deep copy; mutating it or the
 // caller's object has no effect (C17).
+//
+//go:norace
 func (s *sim) configCheck() {
 	var got *pb.ApiConfig
 	c := s.call("GCPConfig", 0, func() { got = s.gme.GCPConfig() })
@@ -851,6 +895,7 @@ func (s *sim) configCheck() {
 	s.res.Count("fault:caller_mutates_config", 1)
 }
 
+//go:norace
 func (s *sim) heal() {
 	s.k.Quiesce()
 	s.kernelFailure()
@@ -917,6 +962,7 @@ func (s *sim) heal() {
 	s.leakCheck("after-close")
 }
 
+//go:norace
 func (s *sim) finish() {
 	k := s.k
 	// release monitors blocked on fake pools
@@ -934,6 +980,7 @@ func (s *sim) finish() {
 	s.res.Switches, s.res.SwitchInOp = k.Switches, k.SwitchInOp
 	s.res.Log = k.Log
 	s.res.Count("ops", len(s.plan.Ops))
+	s.res.Count("fault:dial_failure", s.nDialFail)
 	var names []string
 	for n := range s.mes {
 		names = append(names, n)
@@ -947,36 +994,52 @@ func (s *sim) finish() {
 	s.res.States = append(s.res.States, h)
 }
 
+//go:norace
 func runtimeStack(b []byte) int { return runtime.Stack(b, false) }
 
 // ---------------------------------------------------------------- engine
 
 type Engine struct{}
 
+//go:norace
 func (Engine) Name() string { return "gmesim" }
+
+//go:norace
 func (Engine) Generate(r *rand.Rand, profile string, concurrent bool, avoid map[string]bool) simkit.Plan {
 	return Generate(r, profile, concurrent, avoid)
 }
+
+//go:norace
 func (Engine) Decode(b []byte) (simkit.Plan, error) {
 	p := &Plan{}
 	return p, json.Unmarshal(b, p)
 }
+
+//go:norace
 func (Engine) Strategy(p simkit.Plan, r *rand.Rand) simkit.Strategy {
 	pl := p.(*Plan)
 	if !pl.Concurrent || pl.Strategy == 0 {
-		return &simkit.RandomWalk{R: r, Stick: 0.6, Mix: 0.6}
+		return &simkit.RandomWalk{R: simkit.NewSM64(r.Uint64()), Stick: 0.6, Mix: 0.6}
 	}
-	return simkit.NewPCT(r, pl.Strategy, 60+len(pl.Ops)*10, 0.6)
+	return simkit.NewPCT(simkit.NewSM64(r.Uint64()), pl.Strategy, 60+len(pl.Ops)*10, 0.6)
 }
+
+//go:norace
 func (Engine) Run(t *testing.T, p simkit.Plan, src *simkit.Source, log bool) *simkit.Result {
 	return Run(t, p.(*Plan), src, log)
 }
+
+//go:norace
 func (Engine) NOps(p simkit.Plan) int { return len(p.(*Plan).Ops) }
+
+//go:norace
 func (Engine) Remove(p simkit.Plan, i, j int) simkit.Plan {
 	c := p.(*Plan).Clone()
 	c.Ops = append(c.Ops[:i], c.Ops[j:]...)
 	return c
 }
+
+//go:norace
 func (Engine) Simplify(p simkit.Plan) []simkit.Plan {
 	pl := p.(*Plan)
 	var out []simkit.Plan
@@ -1027,6 +1090,8 @@ func (Engine) Simplify(p simkit.Plan) []simkit.Plan {
 	}
 	return out
 }
+
+//go:norace
 func (Engine) Relevant(res *simkit.Result, prop string) bool {
 	switch prop {
 	case "C16":
